@@ -44,11 +44,12 @@ class RandomSeam:
 class ClockSeam:
     """Stands in for the `time` module inside aiocoap.protocol (observe freshness)."""
 
-    def __init__(self, loop):
+    def __init__(self, loop, epoch=EPOCH):
         self.loop = loop
+        self.epoch = epoch
 
     def time(self):
-        return EPOCH + self.loop.time()
+        return self.epoch + self.loop.time()
 
 
 class LogCollector(logging.Handler):
@@ -204,7 +205,7 @@ class World:
         self._saved = (_mm.random, _tm.random, _proto.time)
         _mm.random = self.rnd_mm
         _tm.random = self.rnd_tm
-        _proto.time = ClockSeam(self.loop)
+        self.clock = _proto.time = ClockSeam(self.loop)
         self.pool = []          # in-flight datagrams, oldest first
         self.sent = []          # every datagram ever put on the wire: (t, src, dst, data, first?)
         self.nodes = {}         # (ip, port) -> node
